@@ -28,6 +28,7 @@ use spec::{CentralDirectoryEnd, Zip64CentralDirectoryEndLocator, Zip64CentralDir
 //@include spec/extra_ok.rs
 //@include spec/appnote_end.rs
 //@include spec/appnote_headers.rs
+//@include spec/dos_datetime.rs
 //@include spec/extra_walk.rs
 //@include spec/parsed.rs
 //@include spec/zfd_views.rs
